@@ -65,26 +65,39 @@ def run_order(rep, crate, cfg):
         rep.ok(R, "-", "no object-level packet list in this configuration", None, cfg)
         return
     for f in fs:
-        def sink(ct, t):
-            if ct[0] == "call" and isinstance(ct[1], str) and ct[1].split("::")[-1] in ("extend", "extend_from_slice", "append", "push", "insert", "sort", "reverse"):
-                return ct[1].split("::")[-1]
-            return None
-        ls = loops.LoopSummary(f, sink)
+        from .. import seqs
         adt = c04.struct_of_self(f)
         i_blocks = c04.field_by_type(crate, adt, lambda fl: fl["ty"].get("adt", "").endswith("Vec"))
         SELF = ("deref", P(1))
-        okl = len(ls.loops) == 1 and N(ls.loops[0]["source"]) == N(("call", "std::slice::<impl [T]>::iter", (("deref*", ("ref", ("field", SELF, i_blocks))),)))
-        rep.check(okl, R, f.key, "blocks-in-order", f.loc(), "the packet list visits self.blocks once, in index order", None, cfg)
-        ev = [e for e in ls.events]
-        it = ("item", 0)
-        want = [("call", V("s", lambda x: isinstance(x, str) and x.endswith("SourceBlockEncoder::source_packets")), (it,)),
-                ("call", V("r", lambda x: isinstance(x, str) and x.endswith("SourceBlockEncoder::repair_packets")), (it, ("const", 0), P(2)))]
-        ok = len(ev) == 2 and all(e["sink"] == "extend" and e["loop"] == 0 for e in ev) and \
-            match(want[0], N(ev[0]["args"][1])) is not None and match(want[1], N(ev[1]["args"][1])) is not None and \
-            N(ev[0]["args"][0]) == N(ev[1]["args"][0])
+        BLOCKS = ("field", SELF, i_blocks)
+        segs, problems = seqs.returned_segments(crate, f, lambda ls: (lambda blk: dec.conds_of(ls, blk)))
+        segs = [seqs.norm_seg(g) for g in segs]
+        det = {"segments": [{"count": fmt(g["count"])[:60], "inner": [{"count": fmt(x["count"])[:80], "value": fmt(x["value"])[:120]}
+                                                                      for x in g.get("inner", [])]} for g in segs], "problems": problems}
+        okl = not problems and len(segs) == 1 and segs[0]["count"] == ("len", BLOCKS) and segs[0]["cond"] is None and "inner" in segs[0]
+        rep.check(okl, R, f.key, "blocks-in-order", f.loc(), "the packet list visits self.blocks once, in index order", det, cfg)
+        ok = False
+        if okl:
+            inner = segs[0]["inner"]
+            ENC = ("index", BLOCKS, seqs.IXO)
+
+            def elems_of(g, fname, args_ok):
+                """segment = all elements, in order, of <block encoder>.fname(..)"""
+                if g["cond"] is not None or g["count"][0] != "len":
+                    return False
+                vec = g["count"][1]
+                if not (vec[0] == "call" and isinstance(vec[1], str) and vec[1].endswith("SourceBlockEncoder::" + fname)):
+                    return False
+                a = [seqs._strip_refs(x) for x in vec[2]]
+                if a[0] != ENC or not args_ok([N(x) for x in vec[2][1:]]):
+                    return False
+                v = seqs._strip_refs(g["value"])
+                return v == ("index", seqs._strip_refs(vec), seqs.IX)
+            ok = len(inner) == 2 and elems_of(inner[0], "source_packets", lambda a: a == []) and \
+                elems_of(inner[1], "repair_packets", lambda a: a == [("const", 0), P(2)])
         rep.check(ok, R, f.key, "source-then-repair", f.loc(),
-                  "per block the list gets the K source packets first, then repair packets 0..n (repair_packets(0, n))",
-                  {"events": loops.render(ls)[:300]}, cfg)
+                  "per block, in block order: all its source packets, then its repair packets 0..n (window start 0, the caller's n)",
+                  det, cfg)
 
 
 def run_plans(rep, crate, cfg):
